@@ -15,7 +15,7 @@ import (
 // same bindings. The binding to the code is indirect and complete: FoxRadix's trees are compared node for node with
 // the router's (C07, runRadix) and FoxMatch's selections are replayed on the router (C01 / C08, D1).
 //
-// Every repair made to the walk (F1, F3, F4, F5, F6, F16) is a switch of the model; with a switch off TLC must find a
+// Every repair made to the walk (F1, F3, F4, F5, F6, F16, F18) is a switch of the model; with a switch off TLC must find a
 // table and a path on which the walk and the reference disagree (the defect at design level). Those negative runs
 // are part of the thorough tier and of the self-test: they show that the equivalence check is not vacuous.
 
@@ -56,11 +56,11 @@ func (g *lookupGen) tla() string {
 	return b.String()
 }
 
-var lookupFixes = []string{"F1", "F2", "F3", "F4", "F5", "F6", "F16", "T1", "T2", "T3", "T4", "T5", "T6", "S1", "S2", "S3", "S4", "P1"}
+var lookupFixes = []string{"F1", "F2", "F3", "F4", "F5", "F6", "F16", "T1", "T2", "T3", "T4", "T5", "T6", "S1", "S2", "S3", "S4", "P1", "F18"}
 
 // which mode of the model (path tables, hostname tables) reaches the shape a repair is about
 var lookupFixMode = map[string]string{"F1": "both", "F2": "host", "F3": "path", "F4": "path", "F5": "path", "F6": "path", "F16": "path",
-	"T1": "path", "T2": "path", "T3": "path", "T4": "path", "T5": "path", "T6": "host", "S1": "path", "S2": "path", "S3": "path", "S4": "host", "P1": "path"}
+	"T1": "path", "T2": "path", "T3": "path", "T4": "path", "T5": "path", "T6": "host", "S1": "path", "S2": "path", "S3": "path", "S4": "host", "P1": "path", "F18": "host"}
 
 // the shapes behind the repaired defects and the seeded changes, over the alphabet {a, b}
 var lookupCorePool = []string{
@@ -124,9 +124,9 @@ func newLookupGen(r *Run, rng *rand.Rand, extraRandom, maxTab, pathLen int) *loo
 
 // hostname mode: hostname patterns over {a, b, ab} labels above short path patterns
 var lookupHostPool = []string{
-	"a.b/", "a.b/a", "{h}.b/a", "a.{g}/", "{h}.{g}/a", "a.b.ab/", "a{h}.b/", "{h}/a", "/a", "/", "/{x}", "a.b/{x}", "a.b/a/", "{h}.b/{x}/",
+	"a.b/", "a.b/a", "{h}.b/a", "a.{g}/", "{h}.{g}/a", "a.b.ab/", "a{h}.b/", "{h}/a", "/a", "/", "/{x}", "a.b/{x}", "a.b/a/", "{h}.b/{x}/", "/a/",
 }
-var lookupHosts = []string{"a.b", "a.ab", "a.b.ab", "b.b", "ab.b", "a", "a.bb", "a.b.", "a..b", "b.a.b", "aa.b", "a.b.a"}
+var lookupHosts = []string{"a.b", "a.ab", "a.b.ab", "b.b", "ab.b", "a", "a.bb", "a.b.", "a..b", "b.a.b", "aa.b", "a.b.a", "/a", "a.b/a", "a/b.b"}
 
 func newLookupHostGen(r *Run, rng *rand.Rand, extraRandom, maxTab, pathLen int) *lookupGen {
 	g := &lookupGen{MaxTab: maxTab, Fixes: lookupFixes, Hosts: slices.Clone(lookupHosts)}
